@@ -10,6 +10,7 @@ import (
 	"fmt"
 	"os"
 	"path/filepath"
+	"runtime/pprof"
 	"strconv"
 	"time"
 
@@ -29,10 +30,16 @@ func main() {
 	if r := os.Getenv("VERIF_ROOT"); r != "" {
 		checks.Root = r
 	}
+	if pf := os.Getenv("VERIF_CPUPROFILE"); pf != "" {
+		f, _ := os.Create(pf)
+		pprof.StartCPUProfile(f)
+		defer pprof.StopCPUProfile()
+	}
 	scratch := filepath.Join(checks.Root, ".scratch", strconv.Itoa(os.Getpid()))
 	os.MkdirAll(scratch, 0o755)
 	code := run(scratch)
 	os.RemoveAll(scratch)
+	pprof.StopCPUProfile()
 	os.Exit(code)
 }
 
